@@ -34,14 +34,26 @@ OPS = {'EQ': 'OP_EQ', 'NE': 'OP_NE', 'LT': 'OP_LT', 'GT': 'OP_GT', 'LE': 'OP_LE'
 SYM = {'EQ': '=', 'NE': '<>', 'LT': '<', 'GT': '>', 'LE': '<=', 'GE': '>='}
 
 
-def pool():
+def pool(rng=None, extra=0):
     d = datetime.datetime
     nums = [0, 1, -1, 5, 10, 2, 0.5, -2.5, 1.0, 1e10, -0.0, 43831, 61]
     dates = [d(2020, 1, 1), d(1900, 3, 1), d(1999, 12, 31)]
     texts = ['', 'a', 'A', 'ab', 'aB', 'B', 'b', '1', '5', '10', '-1', 'true', 'TRUE', 'false', 'abc', 'ABD',
              ' ', 'z', 'Z', 'a b', '0', 'True', '1e3', '#N/A', 'abcd']
     bools = [True, False]
-    return nums + dates + texts + bools + [None]
+    more = []
+    if rng is not None:
+        for _ in range(extra):
+            k = rng.randrange(4)
+            if k == 0:
+                more.append(rng.randint(-10**6, 10**6))
+            elif k == 1:
+                more.append(rng.randint(-10**6, 10**6) / 2 ** rng.randint(1, 10))
+            elif k == 2:
+                more.append(''.join(rng.choice('abABzZ019 -.e') for _ in range(rng.randint(0, 6))))
+            else:
+                more.append(d(1900, 3, 1) + datetime.timedelta(days=rng.randint(0, 80000)))
+    return nums + dates + texts + bools + [None] + more
 
 
 def wire(v):
@@ -82,7 +94,7 @@ def run(ctx):
     import xlcalculator  # noqa: F401
     from xlcalculator import ModelCompiler, Evaluator
     res = Result()
-    vals = pool()
+    vals = pool(ctx.rng, 60 if (ctx.tier == 'thorough' or ctx.widen) else 0)
     res.rule = ('all ordered pairs over a pool of %d values (ints, floats, negatives, zero, dates, texts '
                 'empty/numeric-looking/true-false/mixed case/prefixes, booleans, blank) through the six '
                 'operators, as library calls with typed operands, with native operands, and as formulas; '
